@@ -217,8 +217,8 @@ Proof.
   - unfold on_new_worker in H. inversion H; subst.
     eapply (SQ_ext _ _ [OEv (EvWConn _); ONewWorker _]); [reflexivity | reflexivity | apply nojr_same; reflexivity | reflexivity].
   - destruct (find_proc _ w); [|discriminate]. eapply SQ_on_remove_worker; [exact HI | exact H].
-  - eapply SQ_submit_array; exact H.
-  - destruct (bad_graph_rq _ _); [inversion H; subst; eapply (SQ_ext _ _ [_]); [reflexivity | reflexivity | apply nojr_same; reflexivity | reflexivity]|].
+  - destruct (bad_submit_lengths _ _); [inversion H; subst; eapply (SQ_ext _ _ [_]); [reflexivity | reflexivity | apply nojr_same; reflexivity | reflexivity]|]. eapply SQ_submit_array; exact H.
+  - destruct (bad_graph_rq _ _); [inversion H; subst; eapply (SQ_ext _ _ [_]); [reflexivity | reflexivity | apply nojr_same; reflexivity | reflexivity]|]. destruct (dead_dep _ _ _); [inversion H; subst; eapply (SQ_ext _ _ [_]); [reflexivity | reflexivity | apply nojr_same; reflexivity | reflexivity]|].
     eapply SQ_submit_graph; exact H.
   - unfold handle_open in H.
     match type of H with Ok ?x = _ => assert (Hx : (s', outs) = x) by congruence; rewrite Hx; clear Hx H end.
